@@ -1,6 +1,7 @@
 """Which explorations decide which property, per tier. Each run is (configuration, argument list of `ccmc explore`).
 Scope notation: n = objects ever created, v = handle variables, w = weak variables, c = cleanable variables,
-depth 0 = until fixpoint (every reachable state of the scope)."""
+depth 0 = until fixpoint (every reachable state of the scope). Two-object cycles need v >= 3 (one variable per
+object plus one to carry the back edge), so v=3 is the default; v=2 scopes are only used for fixpoints."""
 
 
 def R(cfg, lens, n, v, depth=0, **kw):
@@ -15,12 +16,14 @@ FIN_RESURRECT = "0,1,2,3"          # Nop, CloneCell0ToG, CloneCell1ToG, MoveCell
 FIN_RELEASE = "0,4,5,12"           # Nop, TakeCell0, TakeCell1, DropG
 FIN_ALLOC = "0,7,8"                # Nop, AllocIntoCell1, AllocCycleAndDrop
 FIN_PHASE = "0,9,10,11"            # Nop, Collect, TryUnwrapG, FinalizeAgainG
+FIN_MIX = "0,1,4,9"                # Nop, CloneCell0ToG, TakeCell0, Collect
 FIN_ALL = "0,1,2,3,4,5,7,8,9,10,11,12"
-DROP_ALL = "0,2,3,4"               # Nop, Collect, TryUnwrapG, FinalizeAgainG
 ACT_ALL = "0,1,2,3,4,5,6"
+ACT_WEAK = "0,3,4"                 # Nop, UpgradeOwnerWeak, UpgradeNeighbourWeak
+ACT_REENTRANT = "0,1,5"            # Nop, DropCapturedCc, CleanOther
+ACT_PHASE = "0,2,6"                # Nop, Alloc, Collect
 
 Q, T = "quick", "thorough"
-
 PLANS = {}
 
 
@@ -28,272 +31,172 @@ def plan(prop, tier, runs):
     PLANS[(prop, tier)] = runs
 
 
-CORE_CFGS_Q = ["full-dbg", "nofin-rel", "min-dbg"]
-CORE_CFGS_T = ["full-dbg", "full-rel", "nofin-rel", "nofin-dbg", "min-dbg", "min-rel", "pedantic-dbg"]
+BIG = 1500   # seconds: cap of the largest thorough runs (reported as a cut if hit)
+MID = 400
 
-core_quick = [R(c, "core", 2, 3) for c in CORE_CFGS_Q] + [
-    R("full-rel", "core", 3, 2, depth=12),
-    R("full-dbg", "coreh", 2, 2),
+# ---- shared run families -----------------------------------------------------------------------------------
+core_q = [
+    R("full-dbg", "core", 2, 3),                 # fixpoint, 1.97e5 states
+    R("nofin-rel", "core", 2, 3),                # fixpoint (single-pass collect)
+    R("min-dbg", "core", 2, 3),                  # fixpoint (no weak-ptrs: other drop paths)
+    R("full-rel", "core", 3, 3, depth=12),
+    R("full-dbg", "coreh", 2, 3, depth=16),
 ]
-core_thorough = [R(c, "core", 2, 3) for c in CORE_CFGS_T] + [
-    R("full-rel", "core", 3, 2, max_seconds=1500),
-    R("nofin-rel", "core", 3, 2, depth=16),
-    R("full-dbg", "core", 3, 3, depth=11),
-    R("full-rel", "core", 4, 2, depth=10),
+core_t = [R(c, "core", 2, 3) for c in ["full-dbg", "full-rel", "nofin-rel", "nofin-dbg", "min-dbg", "min-rel", "pedantic-dbg"]] + [
+    R("full-rel", "core", 3, 2, max_seconds=BIG),          # fixpoint, 1.45e7 states
+    R("nofin-rel", "core", 3, 2, max_seconds=BIG),
+    R("full-rel", "core", 3, 3, depth=15, max_seconds=BIG),
+    R("full-dbg", "core", 3, 3, depth=13),
+    R("full-rel", "core", 4, 3, depth=11, max_seconds=BIG),
     R("full-dbg", "coreh", 2, 3),
-    R("pedantic-dbg", "coreh", 2, 2),
+    R("pedantic-dbg", "coreh", 2, 3, depth=18),
 ]
 
-# C01 no premature reclamation
-plan("C01", Q, core_quick + [
-    R("full-dbg", "fin", 2, 2, depth=10, fin_menu=FIN_RESURRECT),
-    R("full-dbg", "weakfin", 2, 2, depth=8),
-    R("full-dbg", "auto", 3, 2, depth=9),
-    R("full-dbg", "cleaner", 2, 2, depth=6),
-])
-plan("C01", T, core_thorough + [
-    R("full-dbg", "fin", 2, 2, fin_menu=FIN_RESURRECT),
-    R("full-rel", "fin", 2, 3, depth=12, fin_menu=FIN_ALL),
-    R("full-rel", "fin", 3, 2, depth=10, fin_menu=FIN_RESURRECT),
-    R("full-dbg", "weakfin", 2, 2, depth=11),
-    R("full-rel", "weak", 2, 2, depth=0, max_seconds=600),
-    R("full-dbg", "auto", 3, 2, depth=12),
-    R("full-dbg", "autofin", 3, 2, depth=9),
-    R("full-dbg", "cleaner", 2, 2, depth=8, action_menu=ACT_ALL),
-])
 
-# C02 completeness of collect_cycles
-plan("C02", Q, core_quick + [
-    R("full-dbg", "fin", 2, 2, depth=10, fin_menu=FIN_RELEASE),
-    R("nofin-rel", "dtor", 2, 2, depth=9),
-    R("full-dbg", "weak", 2, 2, depth=8),
-])
-plan("C02", T, core_thorough + [
-    R("full-dbg", "fin", 2, 2, fin_menu=FIN_RELEASE),
-    R("full-rel", "fin", 2, 3, depth=12, fin_menu=FIN_ALL),
-    R("nofin-rel", "dtor", 2, 2),
-    R("full-dbg", "weakfin", 2, 2, depth=11),
-    R("full-dbg", "cleaner", 2, 2, depth=8),
-])
+def fin_q(menu, depth=13, cfg="full-dbg", n=2):
+    return R(cfg, "fin", n, 3, depth=depth, fin_menu=menu)
 
-# C03 drop at most once / free exactly once / right layout (+ layout grid engine, see check)
-plan("C03", Q, [
-    R("full-dbg", "core", 2, 3),
-    R("min-dbg", "core", 2, 3),
-    R("full-dbg", "weak", 2, 2, depth=8),
-    R("full-dbg", "cyclic", 3, 2, depth=6),
-    R("full-dbg", "fin", 2, 2, depth=9, fin_menu=FIN_RELEASE),
-])
-plan("C03", T, [R(c, "core", 2, 3) for c in CORE_CFGS_T] + [
-    R("full-rel", "core", 3, 2, depth=16),
-    R("full-rel", "weak", 2, 2, depth=0, max_seconds=600),
-    R("full-dbg", "weakfin", 2, 2, depth=11),
-    R("full-dbg", "cyclic", 3, 2, depth=8),
-    R("full-dbg", "fin", 2, 2, fin_menu=FIN_RELEASE),
-    R("full-dbg", "cleaner", 2, 2, depth=8),
-])
 
-# C04 Rc equivalence
-plan("C04", Q, core_quick + [
-    R("full-dbg", "fin", 2, 2, depth=10, fin_menu=FIN_RELEASE),
-    R("full-dbg", "weak", 2, 2, depth=8),
-])
-plan("C04", T, core_thorough + [
-    R("full-dbg", "fin", 2, 2, fin_menu=FIN_RELEASE),
-    R("full-rel", "fin", 2, 3, depth=12, fin_menu=FIN_ALL),
-    R("full-dbg", "weakfin", 2, 2, depth=11),
-    R("full-dbg", "cleaner", 2, 2, depth=8),
-])
+def fin_t(menu, depth=18, cfg="full-rel", n=2):
+    return R(cfg, "fin", n, 3, depth=depth, fin_menu=menu, max_seconds=MID)
 
-# C05 finalizers only on garbage, once, before drops
+
+weak_q = [R("full-dbg", "weak", 2, 3, depth=13), R("full-dbg", "weakfin", 2, 3, depth=10)]
+weak_t = [
+    R("full-rel", "weak", 2, 2, max_seconds=BIG),          # fixpoint attempt
+    R("full-rel", "weak", 2, 3, depth=17, max_seconds=MID),
+    R("full-dbg", "weak", 2, 3, depth=14),
+    R("full-rel", "weakfin", 2, 3, depth=13, max_seconds=MID),
+    R("full-dbg", "weakfin", 2, 3, depth=11),
+    R("full-rel", "weakfin", 3, 3, depth=10, max_seconds=MID),
+    R("nofin-rel", "weakfin", 2, 3, depth=12, max_seconds=MID),
+]
+cyclic_q = [R("full-dbg", "cyclic", 3, 3, depth=7)]
+cyclic_t = [R("full-rel", "cyclic", 3, 3, depth=9, max_seconds=MID), R("full-dbg", "cyclic", 3, 3, depth=8), R("full-rel", "cyclic", 2, 2, max_seconds=MID)]
+cleaner_q = [R("full-dbg", "cleaner", 2, 3, depth=8)]
+cleaner_t = [R("full-rel", "cleaner", 2, 3, depth=11, max_seconds=MID, action_menu=ACT_ALL), R("full-dbg", "cleaner", 2, 3, depth=9, action_menu=ACT_ALL)]
+auto_q = [R("full-dbg", "auto", 3, 3, depth=10)]
+auto_t = [R("full-rel", "auto", 3, 3, depth=14, max_seconds=MID), R("full-dbg", "auto", 3, 3, depth=12), R("full-rel", "autofin", 3, 3, depth=11, max_seconds=MID)]
+
+# ---- C01 no premature reclamation ---------------------------------------------------------------------------
+plan("C01", Q, core_q + [fin_q(FIN_RESURRECT), R("full-dbg", "weakfin", 2, 3, depth=10)] + auto_q + cleaner_q)
+plan("C01", T, core_t + [fin_t(FIN_RESURRECT), fin_t(FIN_ALL, depth=11), fin_t(FIN_RESURRECT, depth=11, n=3)] + weak_t + auto_t + cleaner_t)
+
+# ---- C02 completeness -----------------------------------------------------------------------------------------
+plan("C02", Q, core_q + [fin_q(FIN_RELEASE), R("nofin-rel", "dtor", 2, 3, depth=13), R("full-dbg", "weak", 2, 3, depth=12)])
+plan("C02", T, core_t + [fin_t(FIN_RELEASE), fin_t(FIN_ALL, depth=11), R("nofin-rel", "dtor", 2, 3, depth=18, max_seconds=MID)] + weak_t[1:5] + cleaner_t)
+
+# ---- C03 drop once / free once / right layout (+ layout grid engine) ---------------------------------------------
+plan("C03", Q, [R("full-dbg", "core", 2, 3), R("min-dbg", "core", 2, 3), fin_q(FIN_RELEASE, depth=12)] + weak_q + cyclic_q)
+plan("C03", T, [R(c, "core", 2, 3) for c in ["full-dbg", "full-rel", "nofin-rel", "min-dbg", "min-rel", "pedantic-dbg"]] + [R("full-rel", "core", 3, 3, depth=14, max_seconds=MID), fin_t(FIN_RELEASE)] + weak_t + cyclic_t + cleaner_t)
+
+# ---- C04 Rc equivalence ---------------------------------------------------------------------------------------
+plan("C04", Q, core_q + [fin_q(FIN_RELEASE), R("full-dbg", "weak", 2, 3, depth=12)])
+plan("C04", T, core_t + [fin_t(FIN_RELEASE), fin_t(FIN_ALL, depth=11)] + weak_t[1:5] + cleaner_t)
+
+# ---- C05 finalizers ---------------------------------------------------------------------------------------------
 plan("C05", Q, [
-    R("full-dbg", "fin", 2, 2, depth=10, fin_menu=FIN_RESURRECT),
-    R("full-dbg", "fin", 2, 2, depth=10, fin_menu=FIN_RELEASE),
-    R("full-dbg", "fin", 3, 2, depth=8, fin_menu=FIN_ALLOC),
-    R("full-rel", "fin", 2, 3, depth=9, fin_menu=FIN_ALL),
-    R("nofin-rel", "fin", 2, 2, depth=9, fin_menu=FIN_ALL),
-    R("full-dbg", "weakfin", 2, 2, depth=8),
-    R("full-dbg", "core", 2, 3),
+    fin_q(FIN_RESURRECT), fin_q(FIN_RELEASE), fin_q(FIN_ALLOC, depth=10, n=3), fin_q(FIN_PHASE, depth=12),
+    fin_q(FIN_ALL, depth=8, cfg="full-rel"), fin_q(FIN_ALL, depth=8, cfg="nofin-rel"),
+    R("full-dbg", "weakfin", 2, 3, depth=10), R("full-dbg", "core", 2, 3),
 ])
 plan("C05", T, [
-    R("full-dbg", "fin", 2, 2, fin_menu=FIN_RESURRECT),
-    R("full-dbg", "fin", 2, 2, fin_menu=FIN_RELEASE),
-    R("full-dbg", "fin", 3, 2, depth=11, fin_menu=FIN_ALLOC),
-    R("full-dbg", "fin", 2, 2, fin_menu=FIN_PHASE),
-    R("full-rel", "fin", 2, 3, depth=13, fin_menu=FIN_ALL),
-    R("full-rel", "fin", 3, 2, depth=10, fin_menu=FIN_ALL),
-    R("nofin-rel", "fin", 2, 2, depth=12, fin_menu=FIN_ALL),
-    R("full-dbg", "weakfin", 2, 2, depth=11),
-    R("full-dbg", "dtor", 2, 2),
+    fin_t(FIN_RESURRECT), fin_t(FIN_RELEASE), fin_t(FIN_ALLOC, depth=13, n=3), fin_t(FIN_PHASE), fin_t(FIN_ALL, depth=11),
+    fin_t(FIN_ALL, depth=10, cfg="nofin-rel"), R("full-dbg", "fin", 2, 2, fin_menu=FIN_RESURRECT), R("full-dbg", "fin", 2, 2, fin_menu=FIN_RELEASE),
+    R("full-rel", "weakfin", 2, 3, depth=13, max_seconds=MID), R("full-rel", "dtor", 2, 3, depth=18, max_seconds=MID),
 ])
 
-# C06 resurrection (+ deep-chain engine, see check)
+# ---- C06 resurrection (+ deep-chain engine) --------------------------------------------------------------------------
 plan("C06", Q, [
-    R("full-dbg", "fin", 2, 2, depth=11, fin_menu=FIN_RESURRECT),
-    R("full-rel", "fin", 2, 3, depth=9, fin_menu=FIN_ALL),
-    R("full-dbg", "weakfin", 2, 2, depth=8, fin_menu="0,6", drop_menu="0"),
-    R("full-dbg", "fin", 3, 2, depth=8, fin_menu="0,1,3,7,8"),
+    fin_q(FIN_RESURRECT, depth=14), fin_q(FIN_ALL, depth=8, cfg="full-rel"),
+    R("full-dbg", "weakfin", 2, 3, depth=10, fin_menu="0,6", drop_menu="0"),
+    R("full-dbg", "fin", 3, 3, depth=10, fin_menu="0,1,3,7,8"),
 ])
 plan("C06", T, [
-    R("full-dbg", "fin", 2, 2, fin_menu=FIN_RESURRECT),
-    R("full-dbg", "fin", 2, 3, depth=13, fin_menu=FIN_RESURRECT),
-    R("full-rel", "fin", 2, 3, depth=13, fin_menu=FIN_ALL),
-    R("full-rel", "fin", 3, 2, depth=10, fin_menu="0,1,3,7,8"),
-    R("full-dbg", "weakfin", 2, 2, depth=11, fin_menu="0,6", drop_menu="0"),
-    R("full-dbg", "weakfin", 3, 2, depth=8, fin_menu="0,6", drop_menu="0"),
+    fin_t(FIN_RESURRECT, depth=19), R("full-dbg", "fin", 2, 2, fin_menu=FIN_RESURRECT), fin_t(FIN_ALL, depth=11),
+    R("full-rel", "fin", 3, 3, depth=13, fin_menu="0,1,3,7,8", max_seconds=MID),
+    R("full-rel", "weakfin", 2, 3, depth=14, fin_menu="0,6", drop_menu="0", max_seconds=MID),
+    R("full-rel", "weakfin", 3, 3, depth=11, fin_menu="0,6", drop_menu="0", max_seconds=MID),
 ])
 
-# C07 callback panics contained at every crash point (fault forking)
+# ---- C07 callback panics contained at every crash point (fault forking) ---------------------------------------------
 plan("C07", Q, [
-    R("full-dbg", "core", 2, 3, faults=1, fault_kinds=1),
-    R("full-dbg", "fin", 2, 2, depth=8, faults=1, fin_menu="0,1,4,9"),
-    R("full-dbg", "dtor", 2, 2, depth=8, faults=1),
-    R("full-dbg", "weakfin", 2, 2, depth=7, faults=1),
-    R("full-dbg", "cleaner", 2, 2, depth=6, faults=1),
-    R("full-dbg", "cyclic", 3, 2, depth=6, faults=1),
-    R("full-rel", "core", 2, 3, depth=12, faults=1),
+    R("full-dbg", "core", 2, 3, faults=1),
+    R("full-dbg", "fin", 2, 3, depth=10, faults=1, fin_menu=FIN_MIX),
+    R("full-dbg", "dtor", 2, 3, depth=10, faults=1),
+    R("full-dbg", "weakfin", 2, 3, depth=9, faults=1),
+    R("full-dbg", "cleaner", 2, 3, depth=7, faults=1),
+    R("full-dbg", "cyclic", 3, 3, depth=6, faults=1),
+    R("nofin-rel", "core", 2, 3, depth=14, faults=1),
 ])
 plan("C07", T, [
     R("full-dbg", "core", 2, 3, faults=1),
-    R("full-rel", "core", 2, 3, faults=2, max_seconds=1200),
+    R("full-rel", "core", 2, 3, faults=2, max_seconds=BIG),
     R("nofin-rel", "core", 2, 3, faults=1),
     R("min-dbg", "core", 2, 3, faults=1),
-    R("full-rel", "core", 3, 2, depth=11, faults=1),
-    R("full-dbg", "fin", 2, 2, depth=11, faults=1, fin_menu="0,1,4,9"),
-    R("full-rel", "fin", 2, 2, depth=9, faults=2, fin_menu=FIN_ALL),
-    R("full-dbg", "dtor", 2, 2, depth=11, faults=1),
-    R("full-dbg", "weakfin", 2, 2, depth=9, faults=1),
-    R("full-dbg", "weak", 2, 2, depth=10, faults=1),
-    R("full-dbg", "cleaner", 2, 2, depth=8, faults=1, action_menu=ACT_ALL),
-    R("full-dbg", "cyclic", 3, 2, depth=8, faults=1),
-    R("full-dbg", "autofin", 3, 2, depth=8, faults=1),
+    R("full-rel", "core", 3, 3, depth=12, faults=1, max_seconds=MID),
+    R("full-rel", "fin", 2, 3, depth=13, faults=1, fin_menu=FIN_MIX, max_seconds=MID),
+    R("full-rel", "fin", 2, 3, depth=9, faults=2, fin_menu=FIN_ALL, max_seconds=MID),
+    R("full-rel", "dtor", 2, 3, depth=13, faults=1, max_seconds=MID),
+    R("full-rel", "weakfin", 2, 3, depth=11, faults=1, max_seconds=MID),
+    R("full-rel", "weak", 2, 3, depth=12, faults=1, max_seconds=MID),
+    R("full-rel", "cleaner", 2, 3, depth=9, faults=1, action_menu=ACT_ALL, max_seconds=MID),
+    R("full-rel", "cyclic", 3, 3, depth=8, faults=1, max_seconds=MID),
+    R("full-rel", "autofin", 3, 3, depth=9, faults=1, max_seconds=MID),
+    R("full-dbg", "fin", 2, 3, depth=10, faults=1, fin_menu=FIN_ALL),
 ])
 
-# C08 Weak::upgrade
-plan("C08", Q, [
-    R("full-dbg", "weak", 2, 2, depth=9),
-    R("full-dbg", "weakfin", 2, 2, depth=8),
-    R("full-dbg", "cleaner", 2, 2, depth=6, action_menu="0,3,4"),
-    R("full-rel", "weakfin", 3, 2, depth=7),
-    R("full-dbg", "cyclic", 3, 2, depth=6),
-])
-plan("C08", T, [
-    R("full-rel", "weak", 2, 2, max_seconds=900),
-    R("full-dbg", "weak", 2, 2, depth=12),
-    R("full-dbg", "weakfin", 2, 2, depth=11),
-    R("full-rel", "weakfin", 3, 2, depth=9),
-    R("full-dbg", "cleaner", 2, 2, depth=8, action_menu="0,3,4"),
-    R("nofin-rel", "weakfin", 2, 2, depth=10),
-    R("full-dbg", "cyclic", 3, 2, depth=8),
-])
+# ---- C08 Weak::upgrade ----------------------------------------------------------------------------------------------
+plan("C08", Q, weak_q + [R("full-dbg", "cleaner", 2, 3, depth=8, action_menu=ACT_WEAK), R("full-rel", "weakfin", 3, 3, depth=8)] + cyclic_q)
+plan("C08", T, weak_t + [R("full-rel", "cleaner", 2, 3, depth=11, action_menu=ACT_WEAK, max_seconds=MID)] + cyclic_t)
 
-# C09 weak/strong counts, side record
-plan("C09", Q, [
-    R("full-dbg", "weak", 1, 2, w=3),
-    R("full-dbg", "weak", 2, 2, depth=9),
-    R("full-dbg", "weakfin", 2, 2, depth=8),
-    R("full-dbg", "cyclic", 3, 2, depth=6),
-])
-plan("C09", T, [
-    R("full-dbg", "weak", 1, 3, w=3),
-    R("full-rel", "weak", 2, 2, max_seconds=900),
-    R("full-dbg", "weak", 2, 2, depth=12, w=3),
-    R("full-dbg", "weakfin", 2, 2, depth=11),
-    R("nofin-rel", "weak", 2, 2, depth=11),
-    R("full-dbg", "cyclic", 3, 2, depth=8),
-    R("full-dbg", "cleaner", 2, 2, depth=8),
-])
+# ---- C09 counts and side record --------------------------------------------------------------------------------------
+plan("C09", Q, [R("full-dbg", "weak", 1, 2, w=3)] + weak_q + cyclic_q)
+plan("C09", T, [R("full-dbg", "weak", 1, 3, w=3), R("full-rel", "weak", 2, 3, depth=14, w=3, max_seconds=MID)] + weak_t + cyclic_t + cleaner_t[:1])
 
-# C10 cleaning actions
+# ---- C10 cleaning actions ---------------------------------------------------------------------------------------------
 plan("C10", Q, [
-    R("full-dbg", "cleaner", 2, 2, depth=7, action_menu="0,1,5"),
-    R("full-dbg", "cleaner", 2, 2, depth=6, action_menu=ACT_ALL, c=3, max_actions=3),
-    R("nofin-rel", "cleaner", 2, 2, depth=6),
+    R("full-dbg", "cleaner", 2, 3, depth=8, action_menu=ACT_REENTRANT),
+    R("full-dbg", "cleaner", 2, 3, depth=7, action_menu=ACT_ALL, c=3, max_actions=3),
+    R("nofin-rel", "cleaner", 2, 3, depth=8),
 ])
 plan("C10", T, [
-    R("full-dbg", "cleaner", 2, 2, depth=10, action_menu="0,1,5"),
-    R("full-rel", "cleaner", 2, 2, depth=9, action_menu=ACT_ALL, c=3, max_actions=3),
-    R("full-dbg", "cleaner", 2, 3, depth=8, action_menu=ACT_ALL),
-    R("nofin-rel", "cleaner", 2, 2, depth=9),
-    R("full-dbg", "cleaner", 1, 2, action_menu="0,5", c=3, max_actions=3),
+    R("full-rel", "cleaner", 2, 3, depth=11, action_menu=ACT_REENTRANT, max_seconds=MID),
+    R("full-rel", "cleaner", 2, 3, depth=10, action_menu=ACT_ALL, c=3, max_actions=3, max_seconds=MID),
+    R("full-dbg", "cleaner", 2, 3, depth=9, action_menu=ACT_ALL),
+    R("nofin-rel", "cleaner", 2, 3, depth=11, max_seconds=MID),
+    R("full-dbg", "cleaner", 1, 2, action_menu="0,5", c=3, max_actions=3, max_seconds=MID),
 ])
 
-# C11 introspection counters
-plan("C11", Q, core_quick + [
-    R("full-dbg", "auto", 3, 2, depth=9),
-    R("full-dbg", "fin", 2, 2, depth=9, fin_menu=FIN_RELEASE),
-    R("full-dbg", "weak", 2, 2, depth=8),
-])
-plan("C11", T, core_thorough + [
-    R("full-dbg", "auto", 3, 2, depth=12),
-    R("full-dbg", "fin", 2, 2, fin_menu=FIN_RELEASE),
-    R("full-dbg", "weakfin", 2, 2, depth=11),
-    R("full-dbg", "cleaner", 2, 2, depth=8),
-])
+# ---- C11 introspection counters ----------------------------------------------------------------------------------------
+plan("C11", Q, core_q + auto_q + [fin_q(FIN_RELEASE, depth=12), R("full-dbg", "weak", 2, 3, depth=12)])
+plan("C11", T, core_t + auto_t + [fin_t(FIN_RELEASE)] + weak_t[1:5] + cleaner_t)
 
-# C12 phases observable, collections never nest
+# ---- C12 phases, no nesting ----------------------------------------------------------------------------------------------
 plan("C12", Q, [
-    R("full-dbg", "fin", 2, 2, depth=10, fin_menu=FIN_PHASE),
-    R("full-dbg", "dtor", 2, 2, depth=10),
-    R("full-dbg", "cleaner", 2, 2, depth=6, action_menu="0,2,6"),
-    R("full-dbg", "autofin", 3, 2, depth=8),
-    R("full-dbg", "core", 2, 3),
+    fin_q(FIN_PHASE), R("full-dbg", "dtor", 2, 3, depth=13),
+    R("full-dbg", "cleaner", 2, 3, depth=8, action_menu=ACT_PHASE),
+    R("full-dbg", "autofin", 3, 3, depth=8), R("full-dbg", "core", 2, 3),
 ])
 plan("C12", T, [
-    R("full-dbg", "fin", 2, 2, fin_menu=FIN_PHASE),
-    R("full-dbg", "dtor", 2, 2),
-    R("full-rel", "fin", 2, 3, depth=12, fin_menu=FIN_ALL),
-    R("full-dbg", "cleaner", 2, 2, depth=9, action_menu="0,2,6"),
-    R("full-dbg", "autofin", 3, 2, depth=10),
-    R("nofin-rel", "dtor", 2, 2),
+    fin_t(FIN_PHASE), R("full-rel", "dtor", 2, 3, depth=18, max_seconds=MID), fin_t(FIN_ALL, depth=11),
+    R("full-rel", "cleaner", 2, 3, depth=11, action_menu=ACT_PHASE, max_seconds=MID),
+    R("full-rel", "autofin", 3, 3, depth=11, max_seconds=MID), R("nofin-rel", "dtor", 2, 3, depth=16, max_seconds=MID),
+    R("full-dbg", "fin", 2, 2, fin_menu=FIN_PHASE), R("full-dbg", "dtor", 2, 2),
 ])
 
-# C13 try_unwrap (+ layout grid engine)
-plan("C13", Q, [
-    R("full-dbg", "weak", 2, 2, depth=9),
-    R("full-dbg", "weakfin", 2, 2, depth=8),
-    R("full-dbg", "cyclic", 3, 2, depth=6),
-    R("min-dbg", "weak", 2, 3, depth=9),
-])
-plan("C13", T, [
-    R("full-rel", "weak", 2, 2, max_seconds=900),
-    R("full-dbg", "weakfin", 2, 2, depth=11),
-    R("full-dbg", "cyclic", 3, 2, depth=8),
-    R("min-dbg", "weak", 2, 3),
-    R("nofin-rel", "weak", 2, 2, depth=11),
-])
+# ---- C13 try_unwrap (+ layout grid engine) ---------------------------------------------------------------------------------
+plan("C13", Q, weak_q + cyclic_q + [R("min-dbg", "weak", 2, 3, depth=13)])
+plan("C13", T, weak_t + cyclic_t + [R("min-dbg", "weak", 2, 3, depth=16, max_seconds=MID)])
 
-# C14 new_cyclic
-plan("C14", Q, [
-    R("full-dbg", "cyclic", 3, 2, depth=7),
-    R("full-dbg", "cyclic", 3, 2, depth=6, faults=1),
-    R("full-rel", "cyclic", 2, 2, depth=9),
-])
-plan("C14", T, [
-    R("full-dbg", "cyclic", 3, 2, depth=9),
-    R("full-dbg", "cyclic", 3, 2, depth=8, faults=1),
-    R("full-rel", "cyclic", 2, 2, max_seconds=900),
-    R("nofin-rel", "cyclic", 3, 2, depth=8, faults=1),
-])
+# ---- C14 new_cyclic ---------------------------------------------------------------------------------------------------------
+plan("C14", Q, cyclic_q + [R("full-dbg", "cyclic", 3, 3, depth=6, faults=1), R("full-rel", "cyclic", 2, 3, depth=8)])
+plan("C14", T, cyclic_t + [R("full-rel", "cyclic", 3, 3, depth=8, faults=1, max_seconds=MID), R("nofin-rel", "cyclic", 3, 3, depth=8, faults=1, max_seconds=MID)])
 
-# C16 saturation
-plan("C16", Q, [
-    R("full-dbg", "sat", 1, 2, depth=5, sat_k=1),
-    R("full-rel", "sat", 2, 2, depth=5, sat_k=1),
-])
-plan("C16", T, [
-    R("full-dbg", "sat", 1, 2, depth=7, sat_k=2),
-    R("full-rel", "sat", 2, 2, depth=7, sat_k=2),
-    R("nofin-rel", "sat", 1, 2, depth=6, sat_k=1),
-])
+# ---- C16 saturation -----------------------------------------------------------------------------------------------------------
+plan("C16", Q, [R("full-dbg", "sat", 1, 2, depth=6, sat_k=1), R("full-rel", "sat", 2, 2, depth=6, sat_k=1)])
+plan("C16", T, [R("full-dbg", "sat", 1, 2, depth=8, sat_k=2), R("full-rel", "sat", 2, 2, depth=8, sat_k=2, max_seconds=MID), R("nofin-rel", "sat", 1, 2, depth=7, sat_k=1)])
 
-# C20a address stability / ptr_eq (the forwarding impls are a separate enumeration engine)
-plan("C20", Q, [
-    R("full-dbg", "core", 2, 3),
-    R("full-rel", "core", 3, 2, depth=11),
-])
-plan("C20", T, [
-    R("full-dbg", "core", 2, 3),
-    R("full-rel", "core", 3, 2, depth=16),
-    R("full-dbg", "weak", 2, 2, depth=10),
-])
+# ---- C20a address stability / ptr_eq (forwarding impls: separate enumeration engine) --------------------------------------------
+plan("C20", Q, [R("full-dbg", "core", 2, 3), R("full-rel", "core", 3, 3, depth=11)])
+plan("C20", T, [R("full-dbg", "core", 2, 3), R("full-rel", "core", 3, 3, depth=14, max_seconds=MID), R("full-dbg", "weak", 2, 3, depth=13)])
